@@ -1,6 +1,6 @@
 (* the order facts assumed by MinimProofs.v hold for the real numbers (with the boolean comparisons of ExprReal.v) *)
 From Coq Require Import Reals Lra.
-From Adept Require Import Scalar ExprReal.
+From Adept Require Import Scalar RealOps.
 Local Open Scope R_scope.
 Lemma RO_le_total : forall a b : R, oleb RO a b = true \/ oleb RO b a = true.
 Proof. intros a b. cbn. unfold Rleb. destruct (Rle_dec a b); [left; reflexivity|]. destruct (Rle_dec b a); [right; reflexivity|lra]. Qed.
